@@ -1,19 +1,813 @@
+//! C21 — SQL value equality, ordering and hashing are mutually consistent.
+//!
+//! A pool of values of all 16 `SqlValue` variants (curated specials + random).  For ALL ordered
+//! pairs and many triples the real `==`, `Ord::cmp` and `Hash` are
+//!   (a) compared with the Lean model (`SV.eqv`, `SV.cmp`, bytes of `SV.hashWords`), and
+//!   (b) checked directly against the laws (reflexive / symmetric / transitive equality,
+//!       swap law and transitivity of the order, `cmp == Equal` ⇔ `==`, `==` ⇒ equal hash).
+//! End to end: SELECT DISTINCT / GROUP BY / UNION over columns holding the same values must
+//! produce exactly the classes of `==`.
+use std::cmp::Ordering;
 use std::collections::hash_map::DefaultHasher;
 use std::hash::{Hash, Hasher};
-use vibesql_types::SqlValue;
+use std::panic::{catch_unwind, AssertUnwindSafe};
+
+use vharness::sx::{hex, unhex};
 use vharness::*;
-fn h(v: &SqlValue) -> u64 { let mut s = DefaultHasher::new(); v.hash(&mut s); s.finish() }
+use vibesql_types::{Date, Interval, SqlValue, Time, Timestamp};
+
+const SIG_INTERVAL: &str = "C21/interval-cmp-equal-not-eq";
+
+struct Rec(Vec<u8>);
+impl Hasher for Rec {
+    fn finish(&self) -> u64 {
+        0
+    }
+    fn write(&mut self, b: &[u8]) {
+        self.0.extend_from_slice(b)
+    }
+}
+
+fn rec_bytes(v: &SqlValue) -> Vec<u8> {
+    let mut r = Rec(vec![]);
+    v.hash(&mut r);
+    r.0
+}
+fn std_hash(v: &SqlValue) -> u64 {
+    let mut s = DefaultHasher::new();
+    v.hash(&mut s);
+    s.finish()
+}
+
+/// exact decomposition: value = (-1)^neg · m · 2^e with m odd (or m = 0)
+fn dec_bits(neg: bool, exp: i64, frac: u64, mbits: i64, emax: i64, bias: i64) -> String {
+    if exp == emax {
+        return if frac == 0 { format!("(inf {})", neg as u8) } else { "nan".into() };
+    }
+    let (mut m, mut e) = if exp == 0 { (frac, 1 - bias - mbits) } else { (frac | (1u64 << mbits), exp - bias - mbits) };
+    if m == 0 {
+        return format!("(fin {} 0 0)", neg as u8);
+    }
+    while m % 2 == 0 {
+        m /= 2;
+        e += 1;
+    }
+    format!("(fin {} {} {})", neg as u8, m, e)
+}
+fn f64_sx(f: f64) -> String {
+    let b = f.to_bits();
+    dec_bits(b >> 63 == 1, ((b >> 52) & 0x7ff) as i64, b & ((1u64 << 52) - 1), 52, 0x7ff, 1023)
+}
+fn f32_sx(f: f32) -> String {
+    let b = f.to_bits() as u64;
+    dec_bits(b >> 31 == 1, ((b >> 23) & 0xff) as i64, b & ((1u64 << 23) - 1), 23, 0xff, 127)
+}
+
+/// the three private numbers of an Interval, read from its Debug text
+fn interval_nums(i: &Interval) -> (i64, i64, i64) {
+    let d = format!("{:?}", i);
+    let p = d.rfind(", months: ").expect("Interval Debug format");
+    let rest = &d[p + 10..];
+    let (mo, rest) = rest.split_once(", days: ").expect("days");
+    let (da, rest) = rest.split_once(", microseconds: ").expect("microseconds");
+    let us = rest.trim_end_matches(" }").trim_end_matches('}').trim();
+    (mo.trim().parse().unwrap(), da.trim().parse().unwrap(), us.parse().unwrap())
+}
+
+fn hx(b: &[u8]) -> String {
+    if b.is_empty() {
+        "-".into()
+    } else {
+        hex(b)
+    }
+}
+
+fn to_sx(v: &SqlValue) -> String {
+    use SqlValue::*;
+    match v {
+        Integer(i) => format!("(integer {})", i),
+        Smallint(i) => format!("(smallint {})", i),
+        Bigint(i) => format!("(bigint {})", i),
+        Unsigned(u) => format!("(unsigned {})", u),
+        Numeric(f) => format!("(numeric {})", f64_sx(*f)),
+        Double(f) => format!("(double {})", f64_sx(*f)),
+        Float(f) => format!("(float {})", f32_sx(*f)),
+        Real(f) => format!("(real {})", f32_sx(*f)),
+        Character(s) => format!("(character {})", hx(s.as_bytes())),
+        Varchar(s) => format!("(varchar {})", hx(s.as_bytes())),
+        Boolean(b) => format!("(boolean {})", *b as u8),
+        Date(d) => format!("(date {} {} {})", d.year, d.month, d.day),
+        Time(t) => format!("(time {} {} {} {})", t.hour, t.minute, t.second, t.nanosecond),
+        Timestamp(t) => format!(
+            "(timestamp {} {} {} {} {} {} {})",
+            t.date.year, t.date.month, t.date.day, t.time.hour, t.time.minute, t.time.second, t.time.nanosecond
+        ),
+        Interval(i) => {
+            let (a, b, c) = interval_nums(i);
+            format!("(interval {} {} {} {})", hx(i.value.as_bytes()), a, b, c)
+        }
+        Null => "null".into(),
+    }
+}
+
+/// human-readable form for replay files: Rust Debug plus float bits
+fn show(v: &SqlValue) -> String {
+    match v {
+        SqlValue::Numeric(f) | SqlValue::Double(f) => format!("{:?} bits=0x{:016x}", v, f.to_bits()),
+        SqlValue::Float(f) | SqlValue::Real(f) => format!("{:?} bits=0x{:08x}", v, f.to_bits()),
+        _ => format!("{:?}", v),
+    }
+}
+
+fn variant(v: &SqlValue) -> &'static str {
+    v.type_name()
+}
+
+fn ord_char(o: Ordering, eq: bool) -> char {
+    let c = match o {
+        Ordering::Less => 'l',
+        Ordering::Equal => 'e',
+        Ordering::Greater => 'g',
+    };
+    if eq {
+        c.to_ascii_uppercase()
+    } else {
+        c
+    }
+}
+
+fn curated() -> Vec<SqlValue> {
+    use SqlValue::*;
+    let mut p = vec![Null];
+    for i in [0i64, 1, -1, 2, 255, 256, i64::MAX, i64::MIN, i64::MAX - 1, i64::MIN + 1, (1 << 53) + 1, 1 << 53, -(1 << 53) - 1, 65535, 4294967296] {
+        p.push(Integer(i));
+        p.push(Bigint(i));
+    }
+    for i in [0i16, 1, -1, i16::MAX, i16::MIN, 255, 256, -256] {
+        p.push(Smallint(i));
+    }
+    for u in [0u64, 1, u64::MAX, u64::MAX - 1, 1 << 63, (1 << 63) - 1, 255, 256] {
+        p.push(Unsigned(u));
+    }
+    let f64s: Vec<f64> = vec![
+        0.0, -0.0, 1.0, -1.0, 0.1, -0.1, 1.5, 2.0, 1.0000000000000002, f64::MIN_POSITIVE, -f64::MIN_POSITIVE,
+        f64::from_bits(1), f64::from_bits(0x8000000000000001), f64::from_bits(0x000fffffffffffff), f64::MAX, f64::MIN,
+        f64::INFINITY, f64::NEG_INFINITY, f64::NAN, -f64::NAN, f64::from_bits(0x7ff0000000000001),
+        f64::from_bits(0xfff8000000000001), f64::from_bits(0x7fffffffffffffff), 9007199254740993.0, 1e300, -1e300, 1e-300, f64::EPSILON,
+    ];
+    for f in &f64s {
+        p.push(Double(*f));
+        p.push(Numeric(*f));
+    }
+    let f32s: Vec<f32> = vec![
+        0.0, -0.0, 1.0, -1.0, 0.1, 1.5, f32::MIN_POSITIVE, f32::from_bits(1), f32::from_bits(0x80000001), f32::from_bits(0x007fffff),
+        f32::MAX, f32::MIN, f32::INFINITY, f32::NEG_INFINITY, f32::NAN, -f32::NAN, f32::from_bits(0x7f800001),
+        f32::from_bits(0xffc00001), 16777216.0, 16777217.0, f32::EPSILON,
+    ];
+    for f in &f32s {
+        p.push(Float(*f));
+        p.push(Real(*f));
+    }
+    for s in ["", "a", "A", "ab", "aa", "a\0", "\0", "b", "é", "e\u{301}", "z", "ÿ", "\u{7f}", "\u{80}", "\u{7ff}", "\u{800}", "\u{ffff}", "\u{10000}", "\u{10ffff}", " ", "a ", "abc", "ABC"] {
+        p.push(Varchar(s.to_string()));
+        p.push(Character(s.to_string()));
+    }
+    p.push(Boolean(false));
+    p.push(Boolean(true));
+    let dates = [
+        (2024, 1, 1), (2024, 1, 2), (2024, 2, 1), (2023, 12, 31), (0, 1, 1), (-1, 12, 31), (i32::MIN, 1, 1), (i32::MAX, 12, 31),
+        (1, 1, 1), (9999, 12, 31), (10000, 1, 1), (2024, 12, 1), (2024, 1, 31), (2024, 255, 0), (2024, 0, 255),
+    ];
+    for (y, m, d) in dates {
+        p.push(Date(vibesql_types::Date { year: y, month: m, day: d }));
+    }
+    let times = [
+        (0, 0, 0, 0u32), (23, 59, 59, 999_999_999), (0, 0, 0, 1), (0, 0, 1, 0), (0, 1, 0, 0), (1, 0, 0, 0), (12, 30, 45, 500_000_000),
+        (255, 255, 255, u32::MAX), (0, 0, 0, 1_000_000_000), (0, 0, 59, 0), (0, 59, 0, 0),
+    ];
+    for (h, mi, s, n) in times {
+        p.push(Time(vibesql_types::Time { hour: h, minute: mi, second: s, nanosecond: n }));
+    }
+    for (i, (y, m, d)) in dates.iter().enumerate().take(9) {
+        for (h, mi, s, n) in [times[0], times[1], times[(i + 2) % times.len()]] {
+            p.push(Timestamp(vibesql_types::Timestamp {
+                date: vibesql_types::Date { year: *y, month: *m, day: *d },
+                time: vibesql_types::Time { hour: h, minute: mi, second: s, nanosecond: n },
+            }));
+        }
+    }
+    for t in [
+        "1 MONTH", "30 DAY", "1 YEAR", "12 MONTH", "360 DAY", "1 DAY", "24 HOUR", "1440 MINUTE", "86400 SECOND", "0 DAY", "0 YEAR", "",
+        "-1 DAY", "-24 HOUR", "1-6 YEAR TO MONTH", "18 MONTH", "1.5 SECOND", "1.500000 SECOND", "2 SECOND", "31 DAY", "29 DAY", "2 YEAR",
+        "2147483647 MONTH", "-2147483648 MONTH", "2147483647 DAY", "-2147483648 DAY", "9223372036854775 SECOND", "-9223372036854775 SECOND",
+        "178956970 YEAR", "1 day", "1 DAYS", "garbage", "12:30:45 HOUR TO SECOND", "45045 SECOND", "5 DAY TO HOUR", "5 DAY",
+        "2592000 SECOND", "720 HOUR",
+    ] {
+        p.push(Interval(vibesql_types::Interval::new(t.to_string())));
+    }
+    p
+}
+
+fn random_value(r: &mut Rng) -> SqlValue {
+    use SqlValue::*;
+    let small = |r: &mut Rng| r.range(-3, 3);
+    match r.below(16) {
+        0 => Integer(if r.chance(1, 2) { small(r) } else { r.next() as i64 }),
+        1 => Smallint(if r.chance(1, 2) { small(r) as i16 } else { r.next() as i16 }),
+        2 => Bigint(if r.chance(1, 2) { small(r) } else { r.next() as i64 }),
+        3 => Unsigned(if r.chance(1, 2) { r.below(4) } else { r.next() }),
+        4 => Numeric(rand_f64(r)),
+        5 => Float(rand_f32(r)),
+        6 => Real(rand_f32(r)),
+        7 => Double(rand_f64(r)),
+        8 => Character(rand_str(r)),
+        9 => Varchar(rand_str(r)),
+        10 => Boolean(r.chance(1, 2)),
+        11 => Date(rand_date(r)),
+        12 => Time(rand_time(r)),
+        13 => Timestamp(vibesql_types::Timestamp { date: rand_date(r), time: rand_time(r) }),
+        14 => {
+            let units = ["YEAR", "MONTH", "DAY", "HOUR", "MINUTE", "SECOND", "MONTHS", "days", "Hours"];
+            let n = match r.below(4) {
+                0 => r.range(-3, 40),
+                1 => r.range(-100000, 100000),
+                2 => *r.pick(&[12i64, 24, 30, 60, 360, 720, 1440, 3600, 86400, 2592000]),
+                _ => r.range(0, 3),
+            };
+            let t = if r.chance(1, 8) {
+                format!("{}-{} YEAR TO MONTH", r.range(0, 5), r.range(0, 14))
+            } else if r.chance(1, 8) {
+                format!("{}:{}:{} HOUR TO SECOND", r.range(0, 30), r.range(0, 70), r.range(0, 70))
+            } else {
+                format!("{} {}", n, r.pick(&units))
+            };
+            Interval(vibesql_types::Interval::new(t))
+        }
+        _ => Null,
+    }
+}
+fn rand_f64(r: &mut Rng) -> f64 {
+    match r.below(5) {
+        0 => f64::from_bits(r.next()),
+        1 => r.range(-4, 4) as f64 / 2.0,
+        2 => f64::from_bits(r.below(4) | (r.below(2) << 63)),
+        3 => f64::from_bits(0x7ff0000000000000 | r.below(3) | (r.below(2) << 63)),
+        _ => (r.next() as i64) as f64,
+    }
+}
+fn rand_f32(r: &mut Rng) -> f32 {
+    match r.below(5) {
+        0 => f32::from_bits(r.next() as u32),
+        1 => r.range(-4, 4) as f32 / 2.0,
+        2 => f32::from_bits((r.below(4) | (r.below(2) << 31)) as u32),
+        3 => f32::from_bits((0x7f800000 | r.below(3) | (r.below(2) << 31)) as u32),
+        _ => (r.next() as i32) as f32,
+    }
+}
+fn rand_str(r: &mut Rng) -> String {
+    let alpha = ['a', 'b', 'A', '\0', 'é', 'z', ' ', '\u{800}', '\u{10000}', '~'];
+    let n = r.below(4);
+    (0..n).map(|_| *r.pick(&alpha)).collect()
+}
+fn rand_date(r: &mut Rng) -> Date {
+    Date {
+        year: if r.chance(3, 4) { r.range(2023, 2025) as i32 } else { r.next() as i32 },
+        month: if r.chance(3, 4) { r.range(1, 3) as u8 } else { r.next() as u8 },
+        day: if r.chance(3, 4) { r.range(1, 3) as u8 } else { r.next() as u8 },
+    }
+}
+fn rand_time(r: &mut Rng) -> Time {
+    Time {
+        hour: if r.chance(3, 4) { r.range(0, 2) as u8 } else { r.next() as u8 },
+        minute: if r.chance(3, 4) { r.range(0, 2) as u8 } else { r.next() as u8 },
+        second: if r.chance(3, 4) { r.range(0, 2) as u8 } else { r.next() as u8 },
+        nanosecond: if r.chance(3, 4) { r.range(0, 2) as u32 } else { r.next() as u32 },
+    }
+}
+
+/// decode the protocol form back to a value (replay files)
+fn from_sx(s: &Sx) -> Option<SqlValue> {
+    use SqlValue::*;
+    if s.as_atom() == Some("null") {
+        return Some(Null);
+    }
+    let l = s.as_list()?;
+    let tag = l.first()?.as_atom()?;
+    let int = |i: usize| -> Option<i128> { l.get(i)?.as_atom()?.parse().ok() };
+    let fl = |x: &Sx| -> Option<(bool, bool, bool, u64, i64)> {
+        // (is_nan, is_inf, neg, m, e)
+        if x.as_atom() == Some("nan") {
+            return Some((true, false, false, 0, 0));
+        }
+        let v = x.as_list()?;
+        let neg = v.get(1)?.as_atom()? == "1";
+        match v.first()?.as_atom()? {
+            "inf" => Some((false, true, neg, 0, 0)),
+            "fin" => Some((false, false, neg, v.get(2)?.as_atom()?.parse().ok()?, v.get(3)?.as_atom()?.parse().ok()?)),
+            _ => None,
+        }
+    };
+    let f64_of = |x: &Sx| -> Option<f64> {
+        let (nan, inf, neg, m, e) = fl(x)?;
+        let mag = if nan { f64::NAN } else if inf { f64::INFINITY } else { (m as f64) * (2f64).powi(e as i32 / 2) * (2f64).powi(e as i32 - e as i32 / 2) };
+        Some(if neg { -mag } else { mag })
+    };
+    let strv = |i: usize| -> Option<String> { String::from_utf8(unhex(l.get(i)?.as_atom()?)?).ok() };
+    Some(match tag {
+        "integer" => Integer(int(1)? as i64),
+        "smallint" => Smallint(int(1)? as i16),
+        "bigint" => Bigint(int(1)? as i64),
+        "unsigned" => Unsigned(int(1)? as u64),
+        "numeric" => Numeric(f64_of(l.get(1)?)?),
+        "double" => Double(f64_of(l.get(1)?)?),
+        "float" => Float(f64_of(l.get(1)?)? as f32),
+        "real" => Real(f64_of(l.get(1)?)? as f32),
+        "character" => Character(strv(1)?),
+        "varchar" => Varchar(strv(1)?),
+        "boolean" => Boolean(int(1)? == 1),
+        "date" => Date(vibesql_types::Date { year: int(1)? as i32, month: int(2)? as u8, day: int(3)? as u8 }),
+        "time" => Time(vibesql_types::Time { hour: int(1)? as u8, minute: int(2)? as u8, second: int(3)? as u8, nanosecond: int(4)? as u32 }),
+        "timestamp" => Timestamp(vibesql_types::Timestamp {
+            date: vibesql_types::Date { year: int(1)? as i32, month: int(2)? as u8, day: int(3)? as u8 },
+            time: vibesql_types::Time { hour: int(4)? as u8, minute: int(5)? as u8, second: int(6)? as u8, nanosecond: int(7)? as u32 },
+        }),
+        "interval" => Interval(vibesql_types::Interval::new(strv(1)?)),
+        _ => return None,
+    })
+}
+
+struct Pool {
+    vals: Vec<SqlValue>,
+    sx: Vec<String>,
+    eq: Vec<Vec<bool>>,
+    cmp: Vec<Vec<Ordering>>,
+    hash: Vec<u64>,
+    bytes: Vec<Vec<u8>>,
+}
+
+fn build_pool(vals: Vec<SqlValue>) -> Pool {
+    let n = vals.len();
+    let sx: Vec<String> = vals.iter().map(to_sx).collect();
+    let mut eq = vec![vec![false; n]; n];
+    let mut cmp = vec![vec![Ordering::Equal; n]; n];
+    for i in 0..n {
+        for j in 0..n {
+            eq[i][j] = vals[i] == vals[j];
+            cmp[i][j] = vals[i].cmp(&vals[j]);
+        }
+    }
+    let hash = vals.iter().map(std_hash).collect();
+    let bytes = vals.iter().map(rec_bytes).collect();
+    Pool { vals, sx, eq, cmp, hash, bytes }
+}
+
+fn interval_class(a: &SqlValue, b: &SqlValue) -> bool {
+    // the excluded region of C21_cmp_eq_iff_eqv_partial, narrowed to what the counterexample
+    // theorem exhibits: two intervals with the same cmp_value and different (months, days, µs)
+    if let (SqlValue::Interval(x), SqlValue::Interval(y)) = (a, b) {
+        let (m1, d1, u1) = interval_nums(x);
+        let (m2, d2, u2) = interval_nums(y);
+        let cv = |m: i64, d: i64, u: i64| (m as i128 * 30 + d as i128) * 86_400_000_000i128 + u as i128;
+        (m1, d1, u1) != (m2, d2, u2) && cv(m1, d1, u1) == cv(m2, d2, u2)
+    } else {
+        false
+    }
+}
+
+fn pair_replay(p: &Pool, i: usize, j: usize, model: Option<char>) -> String {
+    format!(
+        "a = {}\nb = {}\nvalue: {}\nvalue: {}\nreal: a==b {}  b==a {}  a.cmp(b) {:?}  b.cmp(a) {:?}  hash(a)==hash(b) {}  hasher input a {} b {}\nmodel (cmp a b: l/e/g, upper case = eqv): {}\nre-run: ./check C21 --replay <this file>   |   echo 'matrix {} {}' | lean/.lake/build/bin/drv_c21",
+        show(&p.vals[i]), show(&p.vals[j]), p.sx[i], p.sx[j], p.eq[i][j], p.eq[j][i], p.cmp[i][j], p.cmp[j][i],
+        p.hash[i] == p.hash[j], hx(&p.bytes[i]), hx(&p.bytes[j]),
+        model.map(|c| c.to_string()).unwrap_or("-".into()), p.sx[i], p.sx[j]
+    )
+}
+
+fn check_pool(p: &Pool, model: &mut model::Model, rep: &mut Report, label: &str) -> Option<Vec<Vec<char>>> {
+    let n = p.vals.len();
+    // ---------- model ----------
+    let reply = model.ask(&format!("matrix {}", p.sx.join(" ")));
+    let parsed = Sx::parse(&reply);
+    let mut mrows: Option<Vec<Vec<char>>> = None;
+    let mut mhash: Option<Vec<String>> = None;
+    if let Some(Sx::List(top)) = &parsed {
+        if top.len() == 3 && top[0].as_atom() == Some("matrix") {
+            if let (Some(h), Some(r)) = (top[1].as_list(), top[2].as_list()) {
+                mhash = Some(h[1..].iter().map(|x| x.as_atom().unwrap_or("?").to_string()).collect());
+                mrows = Some(r[1..].iter().map(|x| x.as_atom().unwrap_or("").chars().collect()).collect());
+            }
+        }
+    }
+    match (&mrows, &mhash) {
+        (Some(r), Some(h)) if r.len() == n && h.len() == n && r.iter().all(|x| x.len() == n) => {}
+        _ => {
+            rep.fail(FailKind::ModelDiff, None, "model driver rejected the value pool", &format!("{}: request had {} values; reply: {}", label, n, &reply[..reply.len().min(400)]));
+            return None;
+        }
+    }
+    let mrows = mrows.unwrap();
+    let mhash = mhash.unwrap();
+    for i in 0..n {
+        rep.traces_validated += 1;
+        if hx(&p.bytes[i]) != mhash[i] {
+            rep.fail(
+                FailKind::ModelDiff,
+                None,
+                &format!("bytes fed to the hasher differ from the model's hashWords ({})", variant(&p.vals[i])),
+                &format!("v = {}\nvalue: {}\nreal hasher input: {}\nmodel hashWords bytes: {}", show(&p.vals[i]), p.sx[i], hx(&p.bytes[i]), mhash[i]),
+            );
+        }
+    }
+    // ---------- pairs ----------
+    for i in 0..n {
+        for j in 0..n {
+            let (a, b) = (&p.vals[i], &p.vals[j]);
+            let same = variant(a) == variant(b);
+            rep.case(&format!("{} {}", p.sx[i], p.sx[j]), i != j && p.sx[i] != p.sx[j]);
+            rep.count(if same { "pairs_same_variant" } else { "pairs_cross_variant" });
+            match p.cmp[i][j] {
+                Ordering::Less => rep.count("real_cmp_less"),
+                Ordering::Equal => rep.count("real_cmp_equal"),
+                Ordering::Greater => rep.count("real_cmp_greater"),
+            }
+            if p.eq[i][j] && p.sx[i] != p.sx[j] {
+                rep.count("pairs_equal_but_not_identical");
+            }
+            let real = ord_char(p.cmp[i][j], p.eq[i][j]);
+            if real != mrows[i][j] {
+                rep.fail(
+                    FailKind::ModelDiff,
+                    None,
+                    &format!("real ==/cmp differ from the model on a ({}, {}) pair: real {} model {}", variant(a), variant(b), real, mrows[i][j]),
+                    &pair_replay(p, i, j, Some(mrows[i][j])),
+                );
+            }
+            // model: eqv ⇒ equal hashWords; real: == ⇒ equal hasher input (checked below)
+            // ---------- direct oracle on the real answers ----------
+            if i == j && !p.eq[i][j] {
+                rep.fail(FailKind::Oracle, None, &format!("== is not reflexive ({})", variant(a)), &pair_replay(p, i, j, None));
+            }
+            if p.eq[i][j] != p.eq[j][i] {
+                rep.fail(FailKind::Oracle, None, &format!("== is not symmetric ({}, {})", variant(a), variant(b)), &pair_replay(p, i, j, None));
+            }
+            if p.cmp[j][i] != p.cmp[i][j].reverse() {
+                rep.fail(FailKind::Oracle, None, &format!("cmp(b,a) is not the reverse of cmp(a,b) ({}, {})", variant(a), variant(b)), &pair_replay(p, i, j, None));
+            }
+            if (p.cmp[i][j] == Ordering::Equal) != p.eq[i][j] {
+                let sig = if p.cmp[i][j] == Ordering::Equal && !p.eq[i][j] && interval_class(a, b) { Some(SIG_INTERVAL) } else { None };
+                rep.fail(
+                    FailKind::Oracle,
+                    sig,
+                    &format!("cmp == Equal disagrees with == ({}, {})", variant(a), variant(b)),
+                    &pair_replay(p, i, j, None),
+                );
+            }
+            if p.eq[i][j] && (p.hash[i] != p.hash[j] || p.bytes[i] != p.bytes[j]) {
+                rep.fail(FailKind::Oracle, None, &format!("equal values hash differently ({})", variant(a)), &pair_replay(p, i, j, None));
+            }
+            if same {
+                // SQL comparison: partial_cmp is either None or agrees with the total order
+                if let Some(o) = a.partial_cmp(b) {
+                    if o != p.cmp[i][j] {
+                        rep.fail(FailKind::Oracle, None, &format!("partial_cmp disagrees with cmp ({})", variant(a)), &pair_replay(p, i, j, None));
+                    }
+                }
+            }
+        }
+    }
+    Some(mrows)
+}
+
+fn triple_laws(p: &Pool, i: usize, j: usize, k: usize, rep: &mut Report) {
+    let le = |x: usize, y: usize| p.cmp[x][y] != Ordering::Greater;
+    let mut bad: Vec<(&str, Option<&str>)> = vec![];
+    if p.eq[i][j] && p.eq[j][k] && !p.eq[i][k] {
+        bad.push(("== is not transitive", None));
+    }
+    if le(i, j) && le(j, k) && !le(i, k) {
+        bad.push(("<= of cmp is not transitive", None));
+    }
+    if p.cmp[i][j] == Ordering::Less && p.cmp[j][k] == Ordering::Less && p.cmp[i][k] != Ordering::Less {
+        bad.push(("< of cmp is not transitive", None));
+    }
+    if p.cmp[i][j] == Ordering::Equal && p.cmp[i][k] != p.cmp[j][k] {
+        bad.push(("values comparing Equal are ordered differently against a third value", None));
+    }
+    for (what, sig) in bad {
+        rep.fail(
+            FailKind::Oracle,
+            sig,
+            &format!("{} ({}, {}, {})", what, variant(&p.vals[i]), variant(&p.vals[j]), variant(&p.vals[k])),
+            &format!(
+                "a = {}\nb = {}\nc = {}\nvalue: {}\nvalue: {}\nvalue: {}\na==b {} b==c {} a==c {}\ncmp(a,b) {:?} cmp(b,c) {:?} cmp(a,c) {:?}",
+                show(&p.vals[i]), show(&p.vals[j]), show(&p.vals[k]), p.sx[i], p.sx[j], p.sx[k],
+                p.eq[i][j], p.eq[j][k], p.eq[i][k], p.cmp[i][j], p.cmp[j][k], p.cmp[i][k]
+            ),
+        );
+    }
+}
+
+/// number of classes of a relation given as a matrix over `idx`
+fn classes(idx: &[usize], rel: &dyn Fn(usize, usize) -> bool) -> Vec<Vec<usize>> {
+    let mut out: Vec<Vec<usize>> = vec![];
+    for &i in idx {
+        match out.iter_mut().find(|c| rel(c[0], i)) {
+            Some(c) => c.push(i),
+            None => out.push(vec![i]),
+        }
+    }
+    out
+}
+
+fn sql_type(v: &SqlValue) -> Option<&'static str> {
+    use SqlValue::*;
+    Some(match v {
+        Integer(_) => "INTEGER",
+        Smallint(_) => "SMALLINT",
+        Bigint(_) => "BIGINT",
+        Unsigned(_) => "BIGINT UNSIGNED",
+        Numeric(_) => "NUMERIC",
+        Float(_) => "FLOAT",
+        Real(_) => "REAL",
+        Double(_) => "DOUBLE PRECISION",
+        Character(_) => "CHAR(8)",
+        Varchar(_) => "VARCHAR(40)",
+        Boolean(_) => "BOOLEAN",
+        Date(_) => "DATE",
+        Time(_) => "TIME",
+        Timestamp(_) => "TIMESTAMP",
+        Interval(_) => "INTERVAL DAY",
+        Null => return None,
+    })
+}
+
+/// End to end: a one-column table holding pool values of one variant (+ NULLs, duplicates);
+/// DISTINCT / GROUP BY / UNION must return exactly one row per class of `==`.
+fn end_to_end(p: &Pool, mrows: &Option<Vec<Vec<char>>>, rep: &mut Report, rng: &mut Rng, per_type: usize) {
+    let kinds = ["INTEGER", "SMALLINT", "BIGINT", "UNSIGNED", "NUMERIC", "FLOAT", "REAL", "DOUBLE PRECISION", "CHAR", "VARCHAR", "BOOLEAN", "DATE", "TIME", "TIMESTAMP", "INTERVAL"];
+    let null_idx = p.vals.iter().position(|v| v.is_null());
+    for kind in kinds {
+        let mut idx: Vec<usize> = (0..p.vals.len()).filter(|&i| variant(&p.vals[i]) == kind).collect();
+        if idx.is_empty() {
+            continue;
+        }
+        // specials first (they are at the front of the pool), then a random sample; then duplicates and NULLs
+        let keep_front = idx.len().min(per_type / 2);
+        let mut tail: Vec<usize> = idx.split_off(keep_front);
+        rng.shuffle(&mut tail);
+        idx.extend(tail.into_iter().take(per_type - keep_front));
+        let dups: Vec<usize> = (0..idx.len() / 3 + 1).map(|_| *rng.pick(&idx)).collect();
+        idx.extend(dups);
+        if let Some(n) = null_idx {
+            idx.push(n);
+            idx.push(n);
+        }
+        rng.shuffle(&mut idx);
+        let ty = match sql_type(&p.vals[*idx.iter().find(|&&i| !p.vals[i].is_null()).unwrap()]) {
+            Some(t) => t,
+            None => continue,
+        };
+        let mut db = Db::new();
+        let create = format!("CREATE TABLE e (v {})", ty);
+        if !db.exec(&create).is_ok() {
+            rep.count(&format!("e2e_create_rejected_{}", kind.replace(' ', "_")));
+            continue;
+        }
+        let mut ok = true;
+        for &i in &idx {
+            let row = vibesql_storage::Row::new(vec![p.vals[i].clone()]);
+            let r = catch_unwind(AssertUnwindSafe(|| db.db.insert_row("e", row)));
+            if !matches!(r, Ok(Ok(_))) {
+                ok = false;
+                break;
+            }
+        }
+        if !ok {
+            rep.count(&format!("e2e_insert_rejected_{}", kind.replace(' ', "_")));
+            continue;
+        }
+        let stored = match db.scan("e") {
+            Some(s) if s.len() == idx.len() && s.iter().zip(&idx).all(|(r, &i)| r.len() == 1 && rec_bytes(&r[0]) == p.bytes[i] && variant(&r[0]) == variant(&p.vals[i])) => s,
+            _ => {
+                rep.count(&format!("e2e_storage_changed_values_{}", kind.replace(' ', "_")));
+                continue;
+            }
+        };
+        let _ = stored;
+        let real_classes = classes(&idx, &|a, b| p.eq[a][b]);
+        let model_classes = mrows.as_ref().map(|m| classes(&idx, &|a, b| m[a][b].is_ascii_uppercase()).len());
+        let script = || {
+            format!(
+                "{};\n-- rows inserted through Database::insert_row, in this order:\n{}\n",
+                create,
+                idx.iter().map(|&i| format!("--   {}    value: {}", show(&p.vals[i]), p.sx[i])).collect::<Vec<_>>().join("\n")
+            )
+        };
+        let queries = [
+            ("distinct", "SELECT DISTINCT v FROM e"),
+            ("group_by", "SELECT v, COUNT(*) FROM e GROUP BY v"),
+            ("union", "SELECT v FROM e UNION SELECT v FROM e"),
+            ("count_distinct", "SELECT COUNT(DISTINCT v) FROM e"),
+        ];
+        for (name, q) in queries {
+            let out = db.query(q);
+            let case_id = format!("e2e {} {} {}", name, kind, idx.iter().map(|&i| p.sx[i].clone()).collect::<Vec<_>>().join(" "));
+            let rows = match &out {
+                Out::Rows(r) => r,
+                Out::Panic(m) => {
+                    rep.case(&case_id, true);
+                    rep.fail(FailKind::Oracle, None, &format!("engine panicked in {} over {}", name, kind), &format!("{}{};\n=> panic {}", script(), q, m));
+                    continue;
+                }
+                _ => {
+                    rep.case(&case_id, false);
+                    rep.count(&format!("e2e_query_error_{}_{}", name, kind.replace(' ', "_")));
+                    continue;
+                }
+            };
+            rep.case(&case_id, real_classes.len() < idx.len() && real_classes.len() > 1);
+            rep.count(&format!("e2e_{}_{}", name, kind.replace(' ', "_")));
+            let fail = |rep: &mut Report, what: &str, kindf: FailKind| {
+                rep.fail(kindf, None, &format!("{} over a {} column: {}", name, kind, what), &format!("{}{};\n=> {}\nclasses of == among the inserted values: {}", script(), q, out.brief(), real_classes.len()));
+            };
+            if name == "count_distinct" {
+                // COUNT(DISTINCT v) ignores NULL
+                let non_null = real_classes.iter().filter(|c| !p.vals[c[0]].is_null()).count() as i64;
+                let got = rows.first().and_then(|r| r.first()).map(|v| canon::val(v));
+                if got != Some(format!("I{}", non_null)) {
+                    fail(rep, &format!("expected {} distinct non-NULL values", non_null), FailKind::Oracle);
+                }
+                continue;
+            }
+            // one output row per class: outputs pairwise not ==, every input == some output
+            let outs: Vec<&SqlValue> = rows.iter().filter_map(|r| r.first()).collect();
+            let mut bad = None;
+            for (a, x) in outs.iter().enumerate() {
+                for y in outs.iter().skip(a + 1) {
+                    if x == y {
+                        bad = Some(format!("two output rows are == : {} and {}", show(x), show(y)));
+                    }
+                }
+            }
+            for &i in &idx {
+                if !outs.iter().any(|o| **o == p.vals[i]) {
+                    bad = Some(format!("input value {} has no == output row", show(&p.vals[i])));
+                }
+            }
+            if outs.len() != real_classes.len() && bad.is_none() {
+                bad = Some(format!("{} output rows for {} classes", outs.len(), real_classes.len()));
+            }
+            if name == "group_by" && bad.is_none() {
+                for r in rows.iter() {
+                    let size = real_classes.iter().find(|c| p.vals[c[0]] == r[0]).map(|c| c.len() as i64);
+                    if Some(canon::val(&r[1])) != size.map(|s| format!("I{}", s)) {
+                        bad = Some(format!("group of {} has COUNT(*) {} but its class has {:?} rows", show(&r[0]), canon::val(&r[1]), size));
+                    }
+                }
+            }
+            if let Some(b) = bad {
+                fail(rep, &b, FailKind::Oracle);
+            }
+            if let Some(mc) = model_classes {
+                rep.traces_validated += 1;
+                if mc != outs.len() {
+                    fail(rep, &format!("model has {} eqv classes, engine returned {} rows", mc, outs.len()), FailKind::ModelDiff);
+                }
+            }
+        }
+    }
+}
+
 fn main() {
-    let a = SqlValue::Double(0.0); let b = SqlValue::Double(-0.0);
-    println!("eq={} cmp={:?} hash_eq={}", a == b, a.cmp(&b), h(&a) == h(&b));
-    let mut db = Db::new();
-    println!("{}", db.exec("CREATE TABLE t (d DOUBLE PRECISION)").brief());
-    println!("{}", db.exec("INSERT INTO t VALUES (0.0)").brief());
-    println!("{}", db.exec("INSERT INTO t SELECT 0.0 * (0 - 1)").brief());
-    println!("{}", db.exec("INSERT INTO t SELECT -0.0").brief());
-    println!("{}", db.exec("SELECT d FROM t").brief());
-    println!("{:?}", db.exec("SELECT d FROM t"));
-    println!("{}", db.exec("SELECT DISTINCT d FROM t").brief());
-    println!("{}", db.exec("SELECT d, COUNT(*) FROM t GROUP BY d").brief());
-    println!("{}", db.exec("SELECT d FROM t UNION SELECT d FROM t").brief());
+    let args = Args::parse("C21");
+    engine::silence_panics();
+    let mut rep = Report::new(
+        &args,
+        "pair case: two different pool values (all ordered pairs of the pool are run; identical entries are trivial); triple case: three pairwise different pool values; e2e case: the column holds at least two classes of == and at least one class with two rows",
+    );
+    let mut model = args.model();
+    let mut rng = Rng::new(args.seed);
+
+    if let Some(path) = &args.replay {
+        let text = std::fs::read_to_string(path).unwrap_or_default();
+        let vals: Vec<SqlValue> = text.lines().filter_map(|l| l.trim_start_matches("--").trim().split_once("value: ").map(|x| x.1.to_string())).filter_map(|s| Sx::parse(&s).and_then(|x| from_sx(&x))).collect();
+        println!("replaying {} values from {}", vals.len(), path);
+        let p = build_pool(vals);
+        for i in 0..p.vals.len() {
+            println!("  [{}] {}", i, show(&p.vals[i]));
+        }
+        let m = check_pool(&p, &mut model, &mut rep, "replay");
+        for i in 0..p.vals.len() {
+            for j in 0..p.vals.len() {
+                for k in 0..p.vals.len() {
+                    triple_laws(&p, i, j, k, &mut rep);
+                }
+            }
+        }
+        end_to_end(&p, &m, &mut rep, &mut rng, 64);
+        std::process::exit(rep.finish());
+    }
+
+    // ---------------- deterministic probes ----------------
+    // (1) the recorded finding: 1 MONTH vs 30 DAY (C21_cmp_eq_iff_eqv_counterexample)
+    // (2) the repaired defect: +0.0 / -0.0 of every float variant must hash equally
+    let probes = build_pool(vec![
+        SqlValue::Interval(Interval::new("1 MONTH".into())),
+        SqlValue::Interval(Interval::new("30 DAY".into())),
+        SqlValue::Double(0.0),
+        SqlValue::Double(-0.0),
+        SqlValue::Numeric(0.0),
+        SqlValue::Numeric(-0.0),
+        SqlValue::Float(0.0),
+        SqlValue::Float(-0.0),
+        SqlValue::Real(0.0),
+        SqlValue::Real(-0.0),
+        SqlValue::Double(f64::NAN),
+        SqlValue::Double(f64::from_bits(0xfff8000000000001)),
+    ]);
+    check_pool(&probes, &mut model, &mut rep, "probes");
+    rep.sample(serde_json::json!({"probe": "1 MONTH vs 30 DAY", "a": probes.sx[0], "b": probes.sx[1], "real_eq": probes.eq[0][1], "real_cmp": format!("{:?}", probes.cmp[0][1])}));
+    rep.sample(serde_json::json!({"probe": "+0.0 vs -0.0 (Double)", "a": probes.sx[2], "b": probes.sx[3], "real_eq": probes.eq[2][3], "real_cmp": format!("{:?}", probes.cmp[2][3]), "hash_equal": probes.hash[2] == probes.hash[3]}));
+
+    // ---------------- the pool: curated specials + random ----------------
+    let mut vals = curated();
+    let n_curated = vals.len();
+    let n_random = args.n(140, 700) as usize;
+    for _ in 0..n_random {
+        vals.push(random_value(&mut rng));
+    }
+    rep.extra.insert("pool_curated".into(), serde_json::json!(n_curated));
+    rep.extra.insert("pool_random".into(), serde_json::json!(n_random));
+    let p = build_pool(vals);
+    for v in &p.vals {
+        rep.count(&format!("pool_{}", variant(v).replace(' ', "_")));
+    }
+    let mrows = check_pool(&p, &mut model, &mut rep, "pool");
+    for (i, j) in [(1usize, 2usize), (40, 41), (n_curated - 1, n_curated - 2)] {
+        if i < p.vals.len() && j < p.vals.len() {
+            rep.sample(serde_json::json!({"a": p.sx[i], "b": p.sx[j], "real_eq": p.eq[i][j], "real_cmp": format!("{:?}", p.cmp[i][j]), "model": mrows.as_ref().map(|m| m[i][j].to_string())}));
+        }
+    }
+
+    // ---------------- triples ----------------
+    // all triples inside every variant's curated group, all triples of one representative set
+    // across variants, then random triples biased towards values that are close to each other
+    let n = p.vals.len();
+    let mut n_triples = 0u64;
+    let mut by_variant: std::collections::BTreeMap<&str, Vec<usize>> = Default::default();
+    for i in 0..n {
+        by_variant.entry(variant(&p.vals[i])).or_default().push(i);
+    }
+    let cap = args.n(34, 90) as usize;
+    for (_, idx) in by_variant.iter() {
+        let idx: Vec<usize> = idx.iter().cloned().take(cap).collect();
+        for &i in &idx {
+            for &j in &idx {
+                for &k in &idx {
+                    triple_laws(&p, i, j, k, &mut rep);
+                    n_triples += 1;
+                }
+            }
+        }
+        rep.add("triples_within_variant", (idx.len() * idx.len() * idx.len()) as u64);
+    }
+    let reps: Vec<usize> = by_variant.values().flat_map(|v| v.iter().cloned().take(3)).collect();
+    for &i in &reps {
+        for &j in &reps {
+            for &k in &reps {
+                triple_laws(&p, i, j, k, &mut rep);
+                n_triples += 1;
+            }
+        }
+    }
+    rep.add("triples_cross_variant_representatives", (reps.len() * reps.len() * reps.len()) as u64);
+    let n_rand_triples = args.n(400_000, 6_000_000);
+    let mut distinct3 = 0u64;
+    for _ in 0..n_rand_triples {
+        let i = rng.below(n as u64) as usize;
+        let (j, k) = if rng.chance(2, 3) {
+            let g = &by_variant[variant(&p.vals[i])];
+            (*rng.pick(g), *rng.pick(g))
+        } else {
+            (rng.below(n as u64) as usize, rng.below(n as u64) as usize)
+        };
+        triple_laws(&p, i, j, k, &mut rep);
+        n_triples += 1;
+        if i != j && j != k && i != k {
+            distinct3 += 1;
+        }
+    }
+    rep.add("triples_random", n_rand_triples);
+    rep.add("triples_random_pairwise_distinct", distinct3);
+    rep.evaluations += n_triples;
+    rep.extra.insert("triples_checked".into(), serde_json::json!(n_triples));
+
+    // ---------------- end to end ----------------
+    end_to_end(&p, &mrows, &mut rep, &mut rng, args.n(24, 60) as usize);
+
+    rep.assumptions.push("std DefaultHasher (SipHash-1-3 with fixed keys) stands for every hasher: the stronger fact compared with the model is the exact byte sequence handed to the Hasher".into());
+    rep.assumptions.push("floats reach the model as their exact decomposition sign·m·2^e computed from to_bits(); no float arithmetic is involved".into());
+    rep.extra.insert("partial_theorems".into(), serde_json::json!({"C21_cmp_eq_iff_eqv_partial": "excludes pairs of two intervals (cmp_value collapses months/days/µs)"}));
+    rep.extra.insert("counterexample_theorems".into(), serde_json::json!(["C21_cmp_eq_iff_eqv_counterexample"]));
+    std::process::exit(rep.finish());
 }
